@@ -55,12 +55,12 @@ Proof.
     destruct ((lookback (bnum b) <? first) && _); [cbn [fst snd]; split; [exact HJ|split; [auto|split; [auto|discriminate]]]|].
     destruct ((bnum prev + 1 =? bnum b) && (bid prev =? bpar b)) eqn:E1; cbn [negb]; [|cbn [fst snd]; split; [exact HJ|split; [auto|split; [auto|discriminate]]]].
     destruct ((bhv b =? 1) || (bhv b =? 2)) eqn:E2; [cbn [fst snd]; split; [exact HJ|split; [auto|split; [auto|discriminate]]]|].
-    destruct ((bbv b =? 0) || (bbv b =? 5)) eqn:E3; cbn [negb]; [|cbn [fst snd]; split; [exact HJ|split; [auto|split; [auto|discriminate]]]].
+    destruct ((bbv b =? 1) || (bbv b =? 5)) eqn:E3'; [cbn [fst snd]; split; [exact HJ|split; [auto|split; [auto|discriminate]]]|].
+    destruct (bbv b =? 0) eqn:E3; cbn [negb]; [|cbn [fst snd]; split; [exact HJ|split; [auto|split; [auto|discriminate]]]].
     apply andb_true_iff in E1. destruct E1 as [E1 E1']. apply N.eqb_eq in E1, E1'.
     apply orb_false_iff in E2. destruct E2 as [E2 E2'].
     assert (Hgd : goodish b).
-    { unfold goodish, good_block. rewrite E2, E2'. destruct (bbv b =? 0) eqn:E30; [left; reflexivity|].
-      right. simpl in E3. apply N.eqb_eq; auto. }
+    { unfold goodish, good_block. rewrite E2, E2', E3. reflexivity. }
     destruct (side_store_J b prev s HJ Hp H1 Hgd E1 E1' Hps) as [A [B [C D]]].
     set (s1 := if has_block (disk_of s) (bid b) then s else write_block b s) in *.
     destruct (IH b s1 A H1 H2 B) as [I1 [I2 [I3 I4]]].
@@ -203,7 +203,7 @@ Proof.
     apply negb_false_iff in Es, Eb. apply memN_In in Es. apply N.eqb_eq in Eb.
     assert (Hw : J (fst (write_block_with_state t p b s))).
     { apply (J_wbws t g); auto.
-      - left. unfold good_block. apply N.eqb_neq in Hh1, Hh2. rewrite Hh1, Hh2, Eb. reflexivity.
+      - unfold goodish, good_block. apply N.eqb_neq in Hh1, Hh2. rewrite Hh1, Hh2, Eb. reflexivity.
       - exists pp. split; auto. lia. }
     destruct (write_block_with_state t p b s) as [s' e0]. cbn [fst] in Hw.
     destruct e0; try exact Hw. apply IH; auto. }
